@@ -108,9 +108,13 @@ package queue
 //@ predicate qOK(q *queue) bool = q.rwMutex != nil && page.pageOK(q.metaPage) && page.psize(q.metaPage) >= 24 && page.factoryOK(q.indexPageFct) && page.factoryOK(q.dataPageFct) && page.fpsize(q.indexPageFct) == 4194304 && page.fpsize(q.dataPageFct) >= 134217728 && q.indexPageFct != q.dataPageFct && page.pfactory(q.metaPage) != q.indexPageFct && page.pfactory(q.metaPage) != q.dataPageFct
 //@ predicate qMetaPersisted(q *queue) bool = page.get64(page.pbytes(q.metaPage), 0) == uint64(q.appendedSeq.val) && page.get64(page.pbytes(q.metaPage), 8) == uint64(q.acknowledgedSeq.val)
 //@ # index entry of sequence s: (data page id, offset, length), 16 bytes at (s % 262144) * 16 of index page s / 262144
-//@ predicate eDP(q *queue, s int64) int64 = int64(page.get64(page.pbytes(page.fpage(q.indexPageFct, s / 262144)), int((s % 262144) * 16)))
-//@ predicate eOff(q *queue, s int64) int = int(page.get32(page.pbytes(page.fpage(q.indexPageFct, s / 262144)), int((s % 262144) * 16) + 8))
-//@ predicate eLen(q *queue, s int64) int = int(page.get32(page.pbytes(page.fpage(q.indexPageFct, s / 262144)), int((s % 262144) * 16) + 12))
+//@ pure slot(s int64) int = int((s % 262144) * 16)
+//@ lemma slot_def bv prop C05: all(s, "int64", slot(s) == int((s % 262144) * 16))
+//@ lemma slot_range bv prop C05: all(s, "int64", s >= 0 ==> (slot(s) >= 0 && slot(s) <= 4194288))
+//@ lemma slot_disjoint bv prop C05: all(s, "int64", all(t, "int64", (s >= 0 && t >= 0 && s != t && s / 262144 == t / 262144) ==> (slot(s) + 16 <= slot(t) || slot(t) + 16 <= slot(s))))
+//@ predicate eDP(q *queue, s int64) int64 = int64(page.get64(page.pbytes(page.fpage(q.indexPageFct, s / 262144)), slot(s)))
+//@ predicate eOff(q *queue, s int64) int = int(page.get32(page.pbytes(page.fpage(q.indexPageFct, s / 262144)), slot(s) + 8))
+//@ predicate eLen(q *queue, s int64) int = int(page.get32(page.pbytes(page.fpage(q.indexPageFct, s / 262144)), slot(s) + 12))
 //@ predicate seqOK(s int64) bool = s >= 0 - 1 && s < 4611686018427387904
 
 //@ func queue.AppendedSeq
@@ -226,22 +230,24 @@ package queue
 //@ end
 //@ func queue.persistMetaOfMessage
 //@   prop C05
-//@   opaque get64 put64 get32 put32
-//@   uses get_put64 get_put32 get64_put64_other get64_put32_other get32_put64_other get32_put32_other
+//@   opaque get64 put64 get32 put32 slot
+//@   uses get_put64 get_put32 get64_put64_other get64_put32_other get32_put64_other get32_put32_other slot_def slot_range slot_disjoint
 //@   requires qOK(q) && qIndexOK(q) && seqOK(q.appendedSeq.val) && q.appendedSeq.val < 4611686018427387903
 //@   requires dataPageIndex >= 0 && dataLen >= 0 && dataLen <= 134217728 && messageOffset >= 0 && messageOffset <= 134217728
 //@   modifies q.appendedSeq.val, q.indexPage, q.indexPageIndex, cast(q.indexPageFct, "*page.factory").pages[*], cast(q.indexPageFct, "*page.factory").size.val, cast(q.metaPage, "*page.mappedPage").mappedBytes[*], cast(page.fpage(q.indexPageFct, (q.appendedSeq.val + 1) / 262144), "*page.mappedPage").mappedBytes[*] when page.fhas(q.indexPageFct, (q.appendedSeq.val + 1) / 262144)
+//@   crash[entry_before_appended] int64(page.get64(page.pbytes(q.metaPage), 0)) == int64(old(page.get64(page.pbytes(q.metaPage), 0))) || (int64(page.get64(page.pbytes(q.metaPage), 0)) == old(q.appendedSeq.val) + 1 && eDP(q, old(q.appendedSeq.val) + 1) == dataPageIndex && eOff(q, old(q.appendedSeq.val) + 1) == messageOffset && eLen(q, old(q.appendedSeq.val) + 1) == dataLen)
 //@   ensures[dense] result == nil ==> q.appendedSeq.val == old(q.appendedSeq.val) + 1
 //@   ensures[entry] result == nil ==> (eDP(q, q.appendedSeq.val) == dataPageIndex && eOff(q, q.appendedSeq.val) == messageOffset && eLen(q, q.appendedSeq.val) == dataLen)
 //@   ensures[persisted] result == nil ==> page.get64(page.pbytes(q.metaPage), 0) == uint64(q.appendedSeq.val)
 //@   ensures[failed] result != nil ==> q.appendedSeq.val == old(q.appendedSeq.val)
 //@   ensures[index_current] result == nil ==> (qIndexOK(q) && q.indexPageIndex == q.appendedSeq.val / 262144)
 //@   ensures[state] qOK(q)
+//@   ensures[earlier_entries_untouched] all(s, "int64", (s >= 0 && s <= old(q.appendedSeq.val) && old(idxMapped(q, s))) ==> (idxMapped(q, s) && eDP(q, s) == old(eDP(q, s)) && eOff(q, s) == old(eOff(q, s)) && eLen(q, s) == old(eLen(q, s))))
 //@   ensures[data_pages_untouched] all(p, "ref", (page.pageOK(p) && page.pfactory(p) == q.dataPageFct) ==> page.pbytes(p) == old(page.pbytes(p)))
 //@   ensures[old_pages_stay] all(id, "int64", old(page.fhas(q.indexPageFct, id)) ==> (page.fhas(q.indexPageFct, id) && page.fpage(q.indexPageFct, id) == old(page.fpage(q.indexPageFct, id))))
 //@ end
 
-//@ predicate entryOK(q *queue, s int64) bool = eOff(q, s) >= 0 && eLen(q, s) >= 0 && eOff(q, s) + eLen(q, s) <= 134217728 && eDP(q, s) >= 0
+//@ predicate entryOK(q *queue, s int64) bool = eOff(q, s) >= 0 && eLen(q, s) >= 0 && eOff(q, s) + eLen(q, s) <= 134217728 && eDP(q, s) >= 0 && eDP(q, s) < 4611686018427387904
 //@ func queue.Get
 //@   prop C05
 //@   requires qOK(q) && seqOK(q.appendedSeq.val) && q.acknowledgedSeq.val >= 0 - 1
@@ -249,6 +255,14 @@ package queue
 //@   ensures[only_valid_sequences] err == nil ==> (sequence > q.acknowledgedSeq.val && sequence <= q.appendedSeq.val)
 //@   ensures[bytes_of_entry] err == nil ==> (len(data) == eLen(q, sequence) && forall(j, 0, len(data), data[j] == page.pbytes(page.fpage(q.dataPageFct, eDP(q, sequence)))[eOff(q, sequence) + j]))
 //@ end
+//@ # representation invariants of the log (sequences above the acknowledged position)
+//@ predicate belowCursor(q *queue, s int64) bool = eDP(q, s) < q.dataPageIndex || (eDP(q, s) == q.dataPageIndex && eOff(q, s) + eLen(q, s) <= q.messageOffset)
+//@ predicate endLE(q *queue, s int64, t int64) bool = eDP(q, s) < eDP(q, t) || (eDP(q, s) == eDP(q, t) && eOff(q, s) + eLen(q, s) <= eOff(q, t) + eLen(q, t))
+//@ predicate idxMapped(q *queue, s int64) bool = page.fhas(q.indexPageFct, s / 262144)
+//@ # every readable message lies completely below the write cursor
+//@ predicate qInvAll(q *queue) bool = all(s, "int64", (s > q.acknowledgedSeq.val && s >= 0 && s <= q.appendedSeq.val) ==> (idxMapped(q, s) && entryOK(q, s) && belowCursor(q, s)))
+//@ # the last appended message ends highest (this is what makes the cursor recoverable from it)
+//@ predicate qInvLast(q *queue) bool = all(s, "int64", (s > q.acknowledgedSeq.val && s >= 0 && s <= q.appendedSeq.val) ==> (idxMapped(q, s) && endLE(q, s, q.appendedSeq.val)))
 //@ func queue.Put
 //@   prop C05
 //@   atomic rwMutex
@@ -262,4 +276,42 @@ package queue
 //@   ensures[readback] result == nil ==> forall(j, 0, len(data), page.pbytes(page.fpage(q.dataPageFct, eDP(q, q.appendedSeq.val)))[eOff(q, q.appendedSeq.val) + j] == old(data[j]))
 //@   ensures[region_below_cursor] result == nil ==> (eDP(q, q.appendedSeq.val) == q.dataPageIndex && eOff(q, q.appendedSeq.val) + eLen(q, q.appendedSeq.val) <= q.messageOffset)
 //@   ensures[state_ok] qOK(q) && qCursorOK(q) && (result == nil ==> qIndexOK(q))
+//@   ensures[earlier_entries_untouched] all(s, "int64", (s >= 0 && s <= old(q.appendedSeq.val) && old(idxMapped(q, s))) ==> (idxMapped(q, s) && eDP(q, s) == old(eDP(q, s)) && eOff(q, s) == old(eOff(q, s)) && eLen(q, s) == old(eLen(q, s))))
+//@   ensures[earlier_bytes_untouched] result == nil ==> all(id, "int64", all(i, "int", (old(page.fhas(q.dataPageFct, id)) && i >= 0 && i < 134217728 && !(id == eDP(q, q.appendedSeq.val) && i >= eOff(q, q.appendedSeq.val) && i < eOff(q, q.appendedSeq.val) + eLen(q, q.appendedSeq.val))) ==> page.pbytes(page.fpage(q.dataPageFct, id))[i] == old(page.pbytes(page.fpage(q.dataPageFct, id))[i])))
+//@   ensures[region_at_or_after_old_cursor] result == nil ==> (eDP(q, q.appendedSeq.val) > old(q.dataPageIndex) || (eDP(q, q.appendedSeq.val) == old(q.dataPageIndex) && eOff(q, q.appendedSeq.val) >= old(q.messageOffset)))
+//@ end
+
+//@ # second contract of Put (verified separately, not used at call sites): the representation
+//@ # invariants are inductive. Together with earlier_bytes_untouched / earlier_entries_untouched
+//@ # this is "a later append never alters an earlier message".
+//@ func queue.Put#inv
+//@   prop C05
+//@   opaque get64 put64 get32 put32 slot
+//@   uses get_put64 get_put32 get64_put64_other get64_put32_other get32_put64_other get32_put32_other slot_def slot_range slot_disjoint
+//@   requires qOK(q) && qCursorOK(q) && qIndexOK(q) && seqOK(q.appendedSeq.val) && q.appendedSeq.val < 4611686018427387903 && q.dataPageIndex < 4611686018427387903
+//@   requires qInvAll(q) && qInvLast(q) && q.acknowledgedSeq.val >= 0 - 1 && q.acknowledgedSeq.val <= q.appendedSeq.val
+//@   modifies *
+//@   ensures[inv_all_preserved] qInvAll(q)
+//@   ensures[inv_last_preserved] qInvLast(q)
+//@ end
+
+//@ # ---- recovery (C05): the cursor restored on open lies above every readable message -----------
+//@ predicate qEntriesOK(q *queue) bool = all(s, "int64", ((s > q.acknowledgedSeq.val || s == q.appendedSeq.val) && s >= 0 && s <= q.appendedSeq.val) ==> (idxMapped(q, s) && entryOK(q, s)))
+//@ func queue.initDataPageIndex
+//@   prop C05
+//@   unshared
+//@   opaque get64 put64 get32 put32 slot
+//@   uses slot_def slot_range
+//@   requires qOK(q) && seqOK(q.appendedSeq.val) && q.acknowledgedSeq.val >= 0 - 1 && q.acknowledgedSeq.val <= q.appendedSeq.val && q.indexPageIndex == 0
+//@   requires qEntriesOK(q) && qInvLast(q)
+//@   modifies q.dataPageIndex, q.messageOffset, q.dataPage, q.indexPage, q.indexPageIndex, cast(q.dataPageFct, "*page.factory").pages[*], cast(q.dataPageFct, "*page.factory").size.val, cast(q.indexPageFct, "*page.factory").pages[*], cast(q.indexPageFct, "*page.factory").size.val
+//@   ensures[cursor_from_last_entry] (err == nil && q.appendedSeq.val >= 0) ==> (q.dataPageIndex == eDP(q, q.appendedSeq.val) && q.messageOffset == eOff(q, q.appendedSeq.val) + eLen(q, q.appendedSeq.val))
+//@   ensures[empty_queue_starts_at_zero] (err == nil && q.appendedSeq.val < 0) ==> (q.dataPageIndex == 0 && q.messageOffset == 0)
+//@   ensures[last_entry_valid] (err == nil && q.appendedSeq.val >= 0) ==> entryOK(q, q.appendedSeq.val)
+//@   ensures[state_ok] err == nil ==> qOK(q)
+//@   ensures[cursor_ok] err == nil ==> qCursorOK(q)
+//@   ensures[index_ok] err == nil ==> qIndexOK(q)
+//@   ensures[index_current] (err == nil && q.appendedSeq.val >= 0) ==> q.indexPageIndex == q.appendedSeq.val / 262144
+//@   ensures[entries_untouched] all(s, "int64", (s >= 0 && old(idxMapped(q, s))) ==> (idxMapped(q, s) && eDP(q, s) == old(eDP(q, s)) && eOff(q, s) == old(eOff(q, s)) && eLen(q, s) == old(eLen(q, s))))
+//@   ensures[cursor_above_every_message] err == nil ==> qInvAll(q)
 //@ end
